@@ -46,6 +46,7 @@ void VH_FN(std::map<std::string, std::vector<fmm::Segment>>& out) {
     out["c02"].push_back(fmm::c02RandomSegment<E>(VH_PER ? 60 : 120, VH_PER ? 1500 : 4000));
     out["c08"].push_back(fmm::c08Segment<E>(VH_PER ? 10 : 25, VH_PER ? 200 : 500));
     out["c12"].push_back(fmm::c12Segment<E>(VH_PER ? 12 : 30, VH_PER ? 300 : 900));
+    out["c13"].push_back(fmm::c13PolySegment<E>(VH_PER ? 10 : 25, VH_PER ? 300 : 1200));
     out["c18"].push_back(fmm::c18SeqSegment<E>(VH_PER ? 15 : 45, VH_PER ? 400 : 1500));
     out["c09"].push_back(fmm::c09SeqSegment<E>(VH_PER ? 20 : 50, VH_PER ? 600 : 2500));
 #if VH_PER
